@@ -147,7 +147,9 @@ class ScalarMetricFn:
         self.s0, self.u = spec["s0"], A(spec["u"])
 
     def value(self, q):
-        return self.s0 * _exp(self.u @ q)
+        # numpy scalar, as a NumPy-based user model would return (a Python float would make mici's s**2 raise
+        # OverflowError instead of giving inf for absurdly large values)
+        return np.float64(self.s0 * _exp(self.u @ q))
 
     def vjp(self, q):
         return _VJP(_ScalarVJP(self.value(q), self.u))
